@@ -447,3 +447,109 @@ theorem zFind_perm {α} (g : ZField → Option α) (k : Nat) (hg : ∀ x v, g x 
 
 end Qryn.Span
 
+
+namespace Qryn.Span
+
+/-! ### the walk over ANY member list (duplicate names allowed): the last occurrence of a name wins -/
+
+/-- the last member of that name -/
+def zLast {α} (fs : List ZField) (g : ZField → Option α) : Option α := zFind fs.reverse g
+
+theorem zLast_nil {α} (g : ZField → Option α) : zLast [] g = none := rfl
+
+theorem zLast_cons {α} (f : ZField) (fs : List ZField) (g : ZField → Option α) :
+    zLast (f :: fs) g = (zLast fs g).or (g f) := by
+  unfold zLast zFind
+  rw [List.reverse_cons, List.findSome?_append]
+  cases h : List.findSome? g fs.reverse with
+  | some v => simp
+  | none => simp [List.findSome?_cons]; cases g f <;> rfl
+
+/-- the loop state after the walk over any member list: every scalar member by its LAST occurrence, the tag rows of
+    all members in document order -/
+def zSpecLast (c : Cfg) (l : ZLoop) (fs : List ZField) : ZLoop :=
+  { d :=
+      { traceId := ((zLast fs fTraceId).map (fun h => hexVal h c.traceHex)).or l.d.traceId
+        spanId := ((zLast fs fId).map (fun h => hexVal h c.spanHex)).or l.d.spanId
+        ts := ((zLast fs fTimestamp).map timeVal).getD l.d.ts
+        dur := ((zLast fs fDuration).map timeVal).getD l.d.dur
+        parentId := ((zLast fs fParentId).map (fun h => hexVal h c.parentHex)).getD l.d.parentId
+        name := ((zLast fs fName).map (fun v => v.getD [])).getD l.d.name
+        svc := l.d.svc
+        payload := l.d.payload
+        payloadLen := l.d.payloadLen
+        kv := l.d.kv ++ fs.flatMap fieldKv }
+    localSvc := ((zLast fs fLocal).map epSvc).getD l.localSvc
+    remoteSvc := ((zLast fs fRemote).map epSvc).getD l.remoteSvc }
+
+theorem zSpecLast_nil (c : Cfg) (l : ZLoop) : zSpecLast c l [] = l := by
+  obtain ⟨⟨_, _, _, _, _, _, _, _, _, _⟩, _, _⟩ := l
+  simp [zSpecLast, zLast_nil]
+
+theorem zSpecLast_cons (c : Cfg) (l : ZLoop) (f : ZField) (fs : List ZField) :
+    zSpecLast c (fieldUpd c l f) fs = zSpecLast c l (f :: fs) := by
+  cases f with
+  | traceId v =>
+    simp [zSpecLast, fieldUpd, zLast_cons, fTraceId, fId, fParentId, fTimestamp, fDuration, fName, fLocal, fRemote, fieldKv]
+  | id v =>
+    simp [zSpecLast, fieldUpd, zLast_cons, fTraceId, fId, fParentId, fTimestamp, fDuration, fName, fLocal, fRemote, fieldKv]
+  | parentId v =>
+    simp [zSpecLast, fieldUpd, zLast_cons, fTraceId, fId, fParentId, fTimestamp, fDuration, fName, fLocal, fRemote, fieldKv]
+  | timestamp v =>
+    simp [zSpecLast, fieldUpd, zLast_cons, fTraceId, fId, fParentId, fTimestamp, fDuration, fName, fLocal, fRemote, fieldKv]
+  | duration v =>
+    simp [zSpecLast, fieldUpd, zLast_cons, fTraceId, fId, fParentId, fTimestamp, fDuration, fName, fLocal, fRemote, fieldKv]
+  | name v =>
+    simp [zSpecLast, fieldUpd, zLast_cons, fTraceId, fId, fParentId, fTimestamp, fDuration, fName, fLocal, fRemote]
+  | localEndpoint e =>
+    simp [zSpecLast, fieldUpd, zLast_cons, fTraceId, fId, fParentId, fTimestamp, fDuration, fName, fLocal, fRemote, fieldKv]
+  | remoteEndpoint e =>
+    simp [zSpecLast, fieldUpd, zLast_cons, fTraceId, fId, fParentId, fTimestamp, fDuration, fName, fLocal, fRemote, fieldKv]
+  | tags t =>
+    simp [zSpecLast, fieldUpd, zLast_cons, fTraceId, fId, fParentId, fTimestamp, fDuration, fName, fLocal, fRemote, fieldKv]
+  | kind v =>
+    simp [zSpecLast, fieldUpd, zLast_cons, fTraceId, fId, fParentId, fTimestamp, fDuration, fName, fLocal, fRemote, fieldKv]
+  | annotations a =>
+    simp [zSpecLast, fieldUpd, zLast_cons, fTraceId, fId, fParentId, fTimestamp, fDuration, fName, fLocal, fRemote, fieldKv]
+  | other =>
+    simp [zSpecLast, fieldUpd, zLast_cons, fTraceId, fId, fParentId, fTimestamp, fDuration, fName, fLocal, fRemote, fieldKv]
+
+theorem zfold_last (c : Cfg) : ∀ (fs : List ZField) (l : ZLoop),
+    fs.foldlM (zStep c) l = if fs.all (fieldOk c) then .ok (zSpecLast c l fs) else .error .reject := by
+  intro fs
+  induction fs with
+  | nil => intro l; simp [zSpecLast_nil]; rfl
+  | cons f fs ih =>
+    intro l
+    rw [List.foldlM_cons]
+    by_cases hf : fieldOk c f = true
+    · rw [zStep_ok c l f hf]
+      simp only [List.all_cons, hf, Bool.true_and]
+      show (fs.foldlM (zStep c) (fieldUpd c l f)) = _
+      rw [ih, zSpecLast_cons c l f fs]
+    · have hf' : fieldOk c f = false := by simpa using hf
+      rw [zStep_error c l f hf']
+      simp only [List.all_cons, hf', Bool.false_and]
+      rfl
+
+/-- the `onSpan` arguments of ANY span whose members are all accepted -/
+def lastArgs (c : Cfg) (raw : ZSpan) : Args :=
+  let l := zSpecLast c { d := { payload := .zipkin raw, payloadLen := raw.rawLen } } raw.fields
+  let svc := if l.localSvc = [] then l.remoteSvc else l.localSvc
+  ⟨l.d.traceId.getD [], l.d.spanId.getD [], l.d.ts, l.d.dur, l.d.parentId, l.d.name, svc, .zipkin raw, raw.rawLen,
+   l.d.kv ++ [(kServiceName, svc)]⟩
+
+theorem decodeSpan_last (c : Cfg) (d : ZDec) (raw : ZSpan) :
+    (decodeSpan c d raw).map (·.2) = if raw.ok c then .ok (lastArgs c raw) else .error .reject := by
+  unfold decodeSpan ZSpan.ok
+  simp only [bind, Except.bind, zfold_last c raw.fields _]
+  by_cases h : raw.fields.all (fieldOk c) = true
+  · simp only [h, if_true, Bool.true_and]
+    by_cases ht : raw.tail.all isWs = true
+    · simp only [ht]; rfl
+    · have ht' : raw.tail.all isWs = false := by simpa using ht
+      simp only [ht']; rfl
+  · have h' : raw.fields.all (fieldOk c) = false := by simpa using h
+    simp only [h', Bool.false_and]; rfl
+
+end Qryn.Span
